@@ -200,6 +200,14 @@ def build_tree(ctx):
     ctx.add(enum_ob('C16.Tree._build.segment-and-split', bad is None, where=where, cex=bad, families=len(fams),
                     clause='a structure holds exactly the maximal node segment shared by all its branches; one branch -> leaf; otherwise every distinct node at the divergence depth (in first-occurrence order), every branch and that depth go to _build_branches; flags, steps, positions and counts as documented'))
 
+def replay_listeners(r):
+    "real proofs with two forks (a node still unticked at the first fork is ticked later): the per-step trace invariants"
+    out = []
+    for L, a in (('CPL', 'e:Aab:Acd'), ('FDE', 'e:Aab:Acd'), ('K', 'Me:AMaMb:ALcLd'), ('CPL', 'KNaNc:Aab:Acd')):
+        n, bad = _trace_args(L, [a])
+        out += [f"{L} {a}: {b['kind']}" for b in bad]
+    return dict(reproduced=bool(out), detail='; '.join(out[:3]) or 'bookkeeping consistent on the sample proofs')
+
 def replay_build_tree(r):
     "a real tableau with a three-way split: every branch of the tableau must be a root-to-leaf path of the tree"
     from pytableaux.proof import Tableau
@@ -253,6 +261,7 @@ def listeners(ctx):
             kn = getattr(k, 'name', k)
             if kn in s.d: return s.d[kn]
             if kn == 'FLAGS': return FlagVal({})
+            if kn == 'NODES': return NodesTab(s.nodes)          # BranchStat.__init__ creates the per-node table
             raise PyExc(KeyError, (kn,))
         def sym_setitem(s, it, k, v): s.d[getattr(k, 'name', k)] = v
         def sym_getattr(s, it, name):
@@ -260,6 +269,23 @@ def listeners(ctx):
                 def node(it, n): return s.nodes.setdefault(id(n), StatD())
                 return Contract(node, 'BranchStat.node')
             raise Outside(name)
+    class NodesTab(SymVal):
+        "the NODES table of a BranchStat: a plain dict node -> NodeStat (update copies references, as dict.update does)"
+        def __init__(s, tab): s.tab = tab
+        def sym_getitem(s, it, n):
+            if id(n) in s.tab: return s.tab[id(n)]
+            raise PyExc(KeyError, (n,))
+        def sym_setitem(s, it, n, v): s.tab[id(n)] = v
+        def sym_contains(s, it, n): return id(n) in s.tab
+        def sym_getattr(s, it, name):
+            if name == 'update':
+                def update(it, other):
+                    if isinstance(other, NodesTab): s.tab.update(other.tab)
+                    else: raise Outside('NODES.update(<non-table>)')
+                return Contract(update, 'dict.update')
+            if name == 'setdefault': return Contract(lambda it, n, v: s.tab.setdefault(id(n), v), 'dict.setdefault')
+            if name == 'copy': return Contract(lambda it: NodesTab(dict(s.tab)), 'dict.copy')
+            raise Outside(f'dict.{name}')
     try:
         # after_close
         t = TabL(); b = Tok('branch'); stat = {id(b): StatD()}
@@ -334,11 +360,43 @@ def listeners(ctx):
                 if raised or list(branches) != [bm] or (list(opens) == [bm]) == closed or bm.listeners != 'LISTENERS' or id(bm) not in stat or stat[id(bm)].d.get('INDEX') != 0 \
                         or stat[id(bm)].d.get('STEP_ADDED') is not t.step or t.emitted[-1][0] != 'AFTER_BRANCH_ADD':
                     ok = False; why.append(f'add_branch closed={closed}')
+        # fork: a branch added with a parent gets records of its own -- a tick recorded on the child leaves every record of the
+        # parent as it was, and a tick recorded on the parent afterwards leaves the child's records as they were
+        t = TabL(); stat = {}
+        parent = Tok('parent'); n1 = TreeV('n1'); n2 = TreeV('n2')
+        stat[id(parent)] = StatD(); 
+        for nd, st_ in ((n1, 1), (n2, 2)):
+            rec = stat[id(parent)].nodes.setdefault(id(nd), StatD()); rec.d['STEP_ADDED'] = st_
+        class Child(SymVal):
+            def __init__(s): s.listeners = None
+            def sym_getattr(s, it, name):
+                if name == 'closed': return False
+                if name == 'parent': return parent
+                if name == 'id': return 8
+                if name == 'on': return Contract(lambda it, l: setattr(s, 'listeners', l), 'Branch.on')
+                raise Outside(name)
+            def sym_len(s, it): return 2
+            def sym_iter(s, it): return [n1, n2]
+            def sym_truth(s, it): return True
+        ch = Child(); opens = LocalList(); branches = LocalList([parent])
+        t.members.append(parent)
+        fr = mkframe(t, stat=StatMap(), opens=opens, branches=branches, branch_listeners='LISTENERS', after_node_add=None)
+        it.call_closure(Closure(fiB.node, fr, 'add_branch'), [ch], {})
+        before = {k: dict(v.d) for k, v in stat[id(parent)].nodes.items()}
+        fr = mkframe(t, stat=StatMap())
+        it.call_closure(Closure(fiT.node, fr, 'after_tick'), [n1, ch], {})
+        after = {k: dict(v.d) for k, v in stat[id(parent)].nodes.items()}
+        if before != after or set(after) != {id(n1), id(n2)}: ok = False; why.append('a tick recorded on a child branch changed the records of its parent (shared NodeStat)')
+        crec = stat[id(ch)].nodes.get(id(n1))
+        if not (crec is not None and crec.d.get('STEP_TICKED') is t.step): ok = False; why.append('tick on the child not recorded on the child')
+        snap_child = {k: dict(v.d) for k, v in stat[id(ch)].nodes.items()}
+        it.call_closure(Closure(fiT.node, mkframe(t, stat=StatMap()), 'after_tick'), [n2, parent], {})
+        if {k: dict(v.d) for k, v in stat[id(ch)].nodes.items()} != snap_child: ok = False; why.append('a tick recorded on the parent changed the records of the child')
     except Outside as e:
         ctx.add_result(Result('C16.listeners', 'unknown', detail=f'outside subset: {e}')); return
     ctx.add(enum_ob('C16.listeners', ok, where=fi_outer.where, cex=dict(bad=why),
                     clause='after_close records STEP_CLOSED = current step, sets CLOSED, removes the branch from the open list; after_node_add / after_tick record the current step (and TICKED); after_rule_apply appends exactly one history entry and sets STARTED; '
-                           'add_branch appends to branches, to the open list iff the branch is not closed, records index/step/parent, and refuses a duplicate before any change'))
+                           'add_branch appends to branches, to the open list iff the branch is not closed, records index/step/parent, and refuses a duplicate before any change; the records of a forked branch are its own (ticks on child / parent do not change the other)'))
 
 def branch_methods(ctx):
     "Branch.closed / close / tick / extend: straight-line"
@@ -377,8 +435,12 @@ def branch_methods(ctx):
 
 # ------------------------------------------------------------------ bounded: invariant at every step of real proofs
 
+def _trace_args(L, argstrs):
+    return _trace_chunk((L, 0, len(argstrs), list(argstrs)))
+
 def _trace_chunk(job):
-    lname, seed, count = job
+    lname, seed, count = job[:3]
+    explicit = job[3] if len(job) > 3 else None
     from checks import rulesem as RS
     from pytableaux.proof import Tableau, Branch, ClosureNode
     from bounded import args as A
@@ -388,6 +450,9 @@ def _trace_chunk(job):
     kinds = ['prop'] + (['modal'] if logic.Meta.modal else []) + (['fo'] if logic.Meta.quantified else [])
     for i in range(count):
         arg = A.random_argument(rnd, kinds[i % len(kinds)], depth=3, max_premises=2)
+        if explicit is not None:
+            from pytableaux.lang import Argument as _Arg
+            arg = _Arg(explicit[i])
         opts = dict(is_group_optim=bool(i % 2), is_rank_optim=bool((i // 2) % 2), max_steps=120, is_build_models=bool(i % 3 == 0))
         try:
             t = Tableau(logic, arg, **opts)
@@ -402,6 +467,7 @@ def _trace_chunk(job):
         if len(t) != 1 or sents[:-1] != list(arg.premises) or sents[-1] != want_last: prob = 'trunk is not premises + conclusion'
         if trunk and trunk[-1].get('designated') is not None and ([nd['designated'] for nd in trunk] != [True] * len(arg.premises) + [False]): prob = 'trunk designations'
         snap = {id(b): list(b) for b in t}
+        recorded = {}
         hist_len = 0
         events = []
         t.on(Tableau.Events.AFTER_BRANCH_ADD, lambda b: events.append(('add', b)))
@@ -445,6 +511,21 @@ def _trace_chunk(job):
                     except KeyError: pass
                     x = x.parent
                 raise KeyError(nd)
+            # recorded numbers are facts about the past: once recorded for (branch, node) they never change
+            for b in t:
+                sc = None
+                if b.closed:
+                    try: sc = t.stat(b, 'STEP_CLOSED')
+                    except Exception: sc = None
+                for nd in b:
+                    for key in ('STEP_ADDED', 'STEP_TICKED'):
+                        try: v = t.stat(b, nd, key)
+                        except Exception: continue
+                        if type(v) is not int: continue
+                        k_ = (id(b), id(nd), key)
+                        if k_ in recorded and recorded[k_] != v: prob = f'{key} recorded for a node of branch {b.id} changed from {recorded[k_]} to {v}'
+                        recorded[k_] = v
+                        if key == 'STEP_TICKED' and type(sc) is int and v > sc: prob = f'a tick is recorded at step {v} on branch {b.id}, which closed at step {sc}'
             for b in t:
                 last = -1
                 for nd in b:
@@ -530,6 +611,7 @@ def run(ctx):
     structs.adz_apply_obligations(ctx, 'C16')
     bounded_traces(ctx)
     ctx.replayers['C16.Tree._build.'] = replay_build_tree
+    ctx.replayers['C16.listeners'] = replay_listeners
     ctx.replayers['C16.'] = lambda r: dict(reproduced=None, detail='see counterexample / meta')
 
 def replay(payload):
